@@ -73,7 +73,11 @@ RULE = ('every case runs in its own process forked from a pristine interpreter (
         'shot/read noise, dark current, power_spectrum with seeds, smear(angle=None), cosmic_rays, Spectrum '
         'construction/arithmetic/sample/to/trim/resample}; plus directed cases: cache poisoning, plane confluence, plane '
         'updates (amplitude/opd/mask by setter and in place, fits, copies, resamples between multiplies at a repeated '
-        'wavelength), tilt re-use, memo-prone functions (2-9 calls with one argument varied, buffers refilled in place); '
+        'wavelength), tilt re-use, memo-prone functions (2-9 calls with one argument varied, buffers refilled in place), '
+        'workspace re-use (one propagate_fft scratch over wavelengths/oversampling, one dft2 out= over shifts/alphas; the '
+        'fresh-process call gets a workspace with other previous contents), no-op parameter values (rescale(1), resample to '
+        'the own pixelscale, rebin/rescale/pad/window by 1 or 0, neutral spectrum arithmetic) with an edit probe on every '
+        'plane documented as new; '
         'non-trivial = the history contains an in-place call or a repeated dft2 shape or a frozen argument')
 
 TOL = 1e-9
@@ -295,7 +299,10 @@ class Gen:
         ty['amp'] = -1 if ty['amp'] is not None else None
         ty['mfloat'] = False
         ty['rescaled'] = True
-        return self.emit({'f': 'resample', 'p': p, 'factor': self.rng.choice(['2', '1/2', '1/2'])}, ty)
+        fac = self.rng.choice(['2', '1/2', '1/2', '1'])
+        if fac == '1':
+            ty['rescaled'] = False
+        return self.emit({'f': 'resample', 'p': p, 'factor': fac}, ty)
 
     def memo_fn(self):
         """functions whose natural optimisation is a memo: zernike bases/fits, meshes and shapes"""
@@ -412,7 +419,10 @@ class Gen:
                 ty['amp'] = -1 if ty['amp'] is not None else None
                 ty['mfloat'] = False
                 ty['rescaled'] = True
-                self.emit({'f': 'rescale', 'p': p, 'scale': rng.choice(['2', '1/2'])}, ty)
+                sc = rng.choice(['2', '1/2', '1', '1.0'])
+                if Fraction(sc) == 1:
+                    ty['rescaled'] = False        # same sampling: the new plane can be used like the original
+                self.emit({'f': 'rescale', 'p': p, 'scale': sc}, ty)
         elif x < 0.46:
             # multiply
             pcands = self.find(lambda t: t['t'] == 'P' and not t.get('rescaled'))
@@ -476,7 +486,7 @@ class Gen:
         name = rng.choice(['adc', 'adc', 'collect_charge', 'collect_charge', 'collect_charge_bayer', 'pixel', 'pixelate',
                            'charge_diffusion', 'jitter', 'smear', 'util_rescale', 'rebin', 'shot_noise', 'shot_noise',
                            'read_noise', 'read_noise', 'dark_current', 'power_spectrum', 'smear_random', 'cosmic_rays',
-                           'normalize_power'])
+                           'normalize_power', 'pad', 'window'])
         res = {'t': 'A', 'kind': 'res', 'n': 0, 'frozen': False}
         if name == 'adc':
             g = rng.choice(['scalar', 'gain1', 'gain2'])
@@ -493,7 +503,11 @@ class Gen:
             self.emit({'f': 'fn', 'name': 'collect_charge', 'args': args, 'qe': q}, res)
         elif name == 'collect_charge_bayer':
             self.emit({'f': 'fn', 'name': 'collect_charge_bayer', 'args': [self.arr('cube'), self.arr('wv3'), self.arr('qe')]}, res)
-        elif name in ('pixel', 'pixelate', 'charge_diffusion', 'jitter', 'smear', 'util_rescale', 'rebin', 'normalize_power'):
+        elif name in ('util_rescale', 'rebin'):
+            self.emit({'f': 'fn', 'name': name, 'args': [self.arr('img')], 'k': rng.choice([2, 2, 1])}, res)   # factor 1: no-op value
+        elif name in ('pad', 'window'):
+            self.emit({'f': 'fn', 'name': name, 'args': [self.arr(rng.choice(['img', 'cplx']))], 'k': rng.choice([0, 0, 2])}, res)
+        elif name in ('pixel', 'pixelate', 'charge_diffusion', 'jitter', 'smear', 'normalize_power'):
             self.emit({'f': 'fn', 'name': name, 'args': [self.arr('img')]}, res)
         elif name == 'shot_noise':
             self.emit({'f': 'fn', 'name': 'shot_noise', 'args': [self.arr('img')], 'method': rng.choice(['poisson', 'gaussian']),
@@ -524,7 +538,10 @@ class Gen:
         x = rng.random()
         if x < 0.2:
             opn = rng.choice(['mul', 'add', 'sub', 'div'])
-            self.emit({'f': 'spec_scalar', 's': s, 'opname': opn, 'x': 0.05 if opn == 'sub' else rng.choice([2.0, 0.5, 3])},
+            xv = 0.05 if opn == 'sub' else rng.choice([2.0, 0.5, 3])
+            if rng.random() < 0.25:
+                xv = {'mul': 1, 'div': 1.0, 'add': 0, 'sub': 0.0}[opn]      # neutral element: still a new spectrum
+            self.emit({'f': 'spec_scalar', 's': s, 'opname': opn, 'x': xv},
                       {'t': 'S', 'unit': st['unit'], 'flux': st['flux']})
         elif x < 0.4:
             s2 = self.spectrum()
@@ -587,6 +604,8 @@ def generate_cases(rng, tier):
         yield gen_tilt_reuse(rng)
     for k in range(40 if tier == 'quick' else 200):
         yield gen_memo(rng, ['zbasis', 'zfit', 'resample', 'sample', 'shapes'][k % 5])
+    for k in range(12 if tier == 'quick' else 80):
+        yield gen_workspace(rng)
 
 
 def gen_poison(rng):
@@ -789,6 +808,47 @@ def gen_memo(rng, kind=None):
     return {'op': 'hist', 'n': n, 'steps': g.steps, 'fresh': 'all', 'directed': 'memo-' + kind}
 
 
+def gen_workspace(rng):
+    """directed: ONE caller-owned workspace re-used across calls that differ in one argument: a propagate_fft scratch over
+    wavelengths / oversampling (different pad shapes), a dft2 out= buffer over shifts / alphas / transforms, an accumulation
+    array over weights; every call is compared with the same call made in a fresh process on a workspace with other contents"""
+    g = Gen(rng, rng.choice([6, 8]))
+    n = g.n
+    amp = g.arr('amp', fresh=True)
+    seg = rng.random() < 0.3
+    mask = g.arr('mask3', fresh=True) if seg else None
+    p = g.emit({'f': 'plane', 'cls': 'Pupil', 'amp': amp, 'opd': None, 'mask': mask, 'nseg': 2 if seg else 1},
+               {'t': 'P', 'cls': 'Pupil', 'nseg': 2 if seg else 1, 'opd': None, 'amp': amp, 'mfloat': True, 'tilt': False,
+                'arrmask': True})
+    ws = []
+    for k in (0, 1):
+        w0 = g.emit({'f': 'wave', 'wl': k}, {'t': 'W', 'ptype': 'none', 'tilt': False})
+        ws.append(g.emit({'f': 'mul', 'p': p, 'w': w0}, {'t': 'W', 'ptype': 'pupil', 'tilt': False}))
+    scr = g.arr('scratch', writable=True, fresh=True)
+    out = g.arr('buf_c', n=n, writable=True, fresh=True)
+    acc = g.arr('buf_f', n=n, writable=True, fresh=True)
+    src = g.arr('cplx', fresh=True)
+    first = rng.randint(0, 1)
+    osamp = rng.choice([1, 2])
+    for k in range(rng.randint(3, 7)):
+        x = rng.random()
+        if x < 0.55:
+            vary = rng.choice(['wl', 'wl', 'os', 'none'])
+            wl = (first + k) % 2 if vary == 'wl' else first
+            if vary == 'os':
+                osamp = 3 - osamp
+            im = g.emit({'f': 'prop_fft', 'w': ws[wl], 'os': osamp, 'scratch': scr}, {'t': 'W', 'ptype': 'image', 'tilt': False})
+            if rng.random() < 0.3:
+                g.emit({'f': 'insert', 'w': im, 'out': acc, 'weight': rng.choice([1, 2, 0.5])}, {'t': 'alias', 'of': acc})
+        elif x < 0.9:
+            g.emit({'f': 'dft2', 'a': src, 'alpha': rng.choice(['1/%d' % n, '1/%d' % (2 * n)]), 'shape': n,
+                    'shift': [rng.choice([0, 1, 0.5]), rng.choice([0, -1])], 'offset': [0, 0], 'unitary': rng.random() < 0.5,
+                    'out': out, 'inverse': rng.random() < 0.3}, {'t': 'alias', 'of': out})
+        else:
+            g.poke(src) if not g.regs[src]['frozen'] else None
+    return {'op': 'hist', 'n': n, 'steps': g.steps, 'fresh': 'all', 'directed': 'workspace'}
+
+
 def gen_confluence(rng):
     return {'op': 'confl', 'n': rng.choice([6, 8]), 'seed': rng.randint(0, 40), 'seg': rng.random() < 0.4,
             'ta': [rng.choice([0, 1, -2, 3]), rng.choice([0, 2, -1])], 'tb': [rng.choice([1, -1, 2]), rng.choice([0, 1, -3])],
@@ -825,7 +885,7 @@ FN_CODES = {'adc': 101, 'collect_charge': 102, 'collect_charge_bayer': 103, 'pix
             'charge_diffusion': 106, 'jitter': 107, 'smear': 108, 'util_rescale': 109, 'rebin': 110, 'shot_noise': 111,
             'read_noise': 112, 'dark_current': 113, 'power_spectrum': 114, 'sample': 115, 'normalize_power': 116,
             'zernike_basis': 117, 'zernike_fit': 118, 'zernike_remove': 119, 'zernike_compose': 120, 'zernike_coordinates': 121,
-            'mesh': 122, 'rectangle': 123, 'circle': 124, 'hexagon': 125,
+            'mesh': 122, 'rectangle': 123, 'circle': 124, 'hexagon': 125, 'pad': 126, 'window': 127,
             'smear_random': 201, 'cosmic_rays': 202}
 
 
@@ -1148,9 +1208,13 @@ def call_step(s, args, n):
         if nm == 'smear':
             return lentil.smear(a[0], 2.0, angle=30), []
         if nm == 'util_rescale':
-            return lentil.rescale(a[0], 2), []
+            return lentil.rescale(a[0], s.get('k', 2)), []
         if nm == 'rebin':
-            return lentil.rebin(a[0], 2), []
+            return lentil.rebin(a[0], s.get('k', 2)), []
+        if nm == 'pad':
+            return lentil.pad(a[0], (a[0].shape[0] + s['k'], a[0].shape[1] + s['k'])), []
+        if nm == 'window':
+            return lentil.util.window(a[0], shape=(a[0].shape[0] - s['k'], a[0].shape[1] - s['k'])), []
         if nm == 'normalize_power':
             return lentil.normalize_power(a[0]), []
         if nm == 'shot_noise':
@@ -1225,11 +1289,20 @@ def step_args(s, regs):
 SEEDED = ('shot_noise', 'read_noise', 'dark_current', 'power_spectrum')
 
 
-def run_call(s, argdesc, n, global_seed=None):
-    """rebuild the arguments from their public description, make the call, return the canonical outcome"""
+WORKSPACE = {'prop_fft': 'scratch', 'dft2': 'out'}     # buffers whose previous contents must not matter
+
+
+def run_call(s, argdesc, n, global_seed=None, scramble=False):
+    """rebuild the arguments from their public description, make the call, return the canonical outcome.
+    scramble: fill the workspace argument (propagate_fft scratch, dft2/idft2 out=) with other contents first - the
+    documentation says it is overwritten, so the result may not depend on what an earlier call left in it"""
     if global_seed is not None:
         np.random.seed(global_seed)
     args = {k: rebuild(d) for k, d in argdesc.items()}
+    ws = WORKSPACE.get(s['f'])
+    if scramble and ws in args and args[ws].flags.writeable:
+        w = args[ws]
+        w[...] = (pat(w.shape, 3) + 0.25) * (1 + 2j if w.dtype.kind == 'c' else 1)
     try:
         res, targets = call_step(s, args, n)
     except Exception as e:
@@ -1264,7 +1337,7 @@ def serve(inp, outp):
                 try:
                     req = pickle.loads(payload)
                     if req[0] == 'call':
-                        res = run_call(*req[1:])
+                        res = run_call(*req[1:], scramble=True)
                     else:
                         start_local_server()
                         STATS.clear()
@@ -1404,6 +1477,55 @@ def server_request(req):
 def fresh_call(s, argdesc, n, gseed):
     res = server_request(('call', s, argdesc, n, gseed))
     return res if res is not None else new_interpreter_call(s, argdesc, n, gseed)
+
+
+def s_cls(p):
+    return type(p).__name__
+
+
+def forked(fn):
+    """run fn() in a fork of this process and return its (picklable) value"""
+    sys.stdout.flush()
+    sys.stderr.flush()
+    r, w = os.pipe()
+    pid = os.fork()
+    if pid == 0:
+        try:
+            os.close(r)
+            try:
+                data = pickle.dumps(fn())
+            except BaseException as e:
+                data = pickle.dumps(('harness-error', repr(e)))
+            with os.fdopen(w, 'wb') as fh:
+                fh.write(data)
+        finally:
+            os._exit(0)
+    os.close(w)
+    with os.fdopen(r, 'rb') as fh:
+        data = fh.read()
+    os.waitpid(pid, 0)
+    return pickle.loads(data)
+
+
+NEW_PLANE = ('copy', 'rescale', 'resample', 'fit_tilt')      # documented to hand back a new plane
+
+
+def edit_probe(res, src):
+    """(in a fork) edit the plane a call returned in every documented way - attribute assignment, in-place tilt fit,
+    writes into its arrays, its tilt list - and say whether the INPUT plane is still what it was"""
+    lentil = L()
+    before = describe(src)
+    for a in (res.opd, res.amplitude):
+        if a.flags.writeable and a.size > 1 and a.dtype.kind == 'f':
+            a[...] = a * 0.5 + 1e-9
+    res.tilt.append(lentil.Tilt(x=1e-6, y=-2e-6))
+    try:
+        res.fit_tilt(inplace=True)
+    except Exception:
+        pass
+    res.opd = np.asarray(res.opd) * 2 + 1e-9
+    res.amplitude = np.asarray(res.amplitude) * 0.5
+    return same(before, describe(src))
 
 
 def forked_call(s, argdesc, n, gseed=None):
@@ -1684,14 +1806,26 @@ def run_hist(c):
                 fr = fresh_call(s, argdesc, n, 4242 + t)
                 if fr[0] == 'harness-error':
                     raise RuntimeError('fresh process: ' + fr[1])
-                if not same_outcome(mine, fr):
-                    msgs.append('the same call made first in a fresh process gives a different result')
+                # the fresh call ran on a workspace (scratch / out=) with other previous contents: what the call leaves
+                # in the unused part of a scratch array is not pinned, the result is
+                if not same_outcome(mine, fr, targets=f != 'prop_fft'):
+                    msgs.append('the same call made first in a fresh process'
+                                + (' (with other previous contents in the caller\'s workspace buffer)' if f in WORKSPACE and WORKSPACE[f] in args else '')
+                                + ' gives a different result')
             if t in c.get('newinterp', ()):
                 fr = new_interpreter_call(s, argdesc, n, 99 + t)
                 if fr[0] == 'harness-error':
                     raise RuntimeError('new interpreter: ' + fr[1])
                 if not same_outcome(mine, fr):
                     msgs.append('the same call made first in a new interpreter gives a different result')
+        if (st == 'ok' and f in NEW_PLANE and not (f == 'fit_tilt' and (s['inplace'] or s_cls(args['p']) == 'Image'))
+                and isinstance(res, lentil.Plane)):
+            ok = forked(lambda: edit_probe(res, args['p']))
+            bump('edit_probes')
+            if ok is not True:
+                msgs.append('the call is documented to return a new plane, but editing the returned plane (attribute assignment, '
+                            'in-place tilt fit, writes into its arrays / tilt list) changes the input plane'
+                            + (': the input plane itself was returned' if res is args['p'] else ''))
         rec['hist'] = msgs
         bump('calls')
         bump('calls_' + st.split(':')[0])
@@ -1709,12 +1843,12 @@ def run_hist(c):
     return {'steps': out_steps}
 
 
-def same_outcome(a, b):
+def same_outcome(a, b, targets=True):
     if a[0] != b[0]:
         return False
     if a[0] == 'err':
         return a[1] == b[1]
-    return same(a[1], b[1]) and same(a[2], b[2])
+    return same(a[1], b[1]) and (not targets or same(a[2], b[2]))
 
 
 # ------------------------------------------------------------------ confluence of plane histories
